@@ -1,5 +1,7 @@
 import subprocess
 
+from meta import COMMON_NOTE
+
 import brv
 from engine import Spec, Stream
 from monitors import peers as mon
@@ -35,3 +37,13 @@ SPEC = Spec(
         for k, v in facts.get("lock_shapes", {}).items()
         if k.startswith("StoragePeerRepository.") and k != "StoragePeerRepository.LoadSeeds" and v != "lock-defer"],
 )
+
+META = dict(
+        technique="Lean 4 proof (inductive invariant over op lists, codec round-trip and prefix theorems, refinement to an abstract book) + model/implementation correspondence",
+        text="Theorems for every op sequence, address, delta, clock value and byte string: addresses unique after any API history (incl. loads of files cut anywhere), "
+             "Get = exact score filter with the extracted -1 sentinel, UpdateScore refines an abstract book (int32-wrapped sum of deltas), decode(encode l) = l, "
+             "decode of every prefix keeps exactly the fully written peers, Load total. The model is tied to peers.go by byte-exact differential runs "
+             "(saved file bytes compared) on adversarial addresses and hostile files.",
+        note=COMMON_NOTE + "Concurrent callers are reduced to sequential histories by the extracted lock shape (whole-method mutex) plus Go mutex semantics; LoadSeeds (unlocked) is not modelled. "
+             "C20_load_total is true of the model by construction; for the code it rests on the correspondence over hostile files.",
+    )
